@@ -289,7 +289,16 @@ pub fn c02_strategy(transports: BoxedStrategy<Transport>) -> BoxedStrategy<ConvC
                 let last = i + 1 == n;
                 let method = if head { "HEAD".to_string() } else { method };
                 let conn = keepalive_for(version, last);
-                let mut r = build_req(i as u32, method, path, version, headers, Framing::None, None, mask as usize, mask, conn, false);
+                // mostly body-less; sometimes a (small) body so that the framing headers are part of
+                // the delivered list too, incl. Content-Length next to Transfer-Encoding
+                let (framing, also_cl) = match (mask >> 20) % 12 {
+                    0 => (Framing::Length { n: (mask as usize >> 8) % 40 }, None),
+                    1 if version == "HTTP/1.1" => (Framing::Chunked { chunks: vec![ChunkSpec { len: 1 + (mask as usize >> 8) % 30, upper: false, zeros: 0, ext: None }], last_zeros: 0, last_ext: None }, None),
+                    2 if version == "HTTP/1.1" => (Framing::Chunked { chunks: vec![ChunkSpec { len: 3, upper: true, zeros: 0, ext: None }], last_zeros: 0, last_ext: None }, Some((mask as usize >> 8) % 50)),
+                    _ => (Framing::None, None),
+                };
+                let method = if matches!(framing, Framing::None) { method } else { "POST".to_string() };
+                let mut r = build_req(i as u32, method, path, version, headers, framing, also_cl, mask as usize, mask, conn, false);
                 // absolute-form targets are delivered verbatim too
                 r.target_prefix = ["", "", "", "", "http://example.com", "http://h:8080", "https://user@host.example", "HTTP://EXAMPLE.COM:80"][(mask as usize >> 27) % 8].to_string();
                 conv.reqs.push(r);
@@ -300,7 +309,7 @@ pub fn c02_strategy(transports: BoxedStrategy<Transport>) -> BoxedStrategy<ConvC
             } else {
                 vec![Step::Send { from: 0, to: total }, Step::HalfClose]
             };
-            ConvCase { conv, progs: vec![Prog::ok()], script, transport }
+            ConvCase { conv, progs: vec![Prog::read_all()], script, transport }
         })
         .boxed()
 }
@@ -408,15 +417,21 @@ pub fn finish_no_panic() -> BoxedStrategy<Finish> {
     prop_oneof![
         4 => small_respond(),
         2 => Just(Finish::Drop),
-        2 => (0usize..3000, proptest::collection::vec(0u16..1024, 0..4), any::<u8>()).prop_map(|(body_len, cuts, flush_mask)| Finish::Writer { body_len, cuts, flush_mask, zero_writes: flush_mask & 0x80 != 0 }),
+        2 => (0usize..3000, proptest::collection::vec(0u16..1024, 0..4), any::<u8>()).prop_map(|(body_len, cuts, flush_mask)| Finish::Writer { body_len, cuts, flush_mask, zero_writes: flush_mask & 0x80 != 0, how: (flush_mask >> 4) & 3 }),
     ]
     .boxed()
 }
 
 pub fn c09_strategy(max_len: usize, transports: BoxedStrategy<Transport>) -> BoxedStrategy<ConvCase> {
-    let one = body_framing_nonempty(max_len).prop_flat_map(|f| {
+    c09_strategy_p(max_len, transports, false)
+}
+
+/// `with_panic`: handlers may also panic while holding the request (engines with OS threads)
+pub fn c09_strategy_p(max_len: usize, transports: BoxedStrategy<Transport>, with_panic: bool) -> BoxedStrategy<ConvCase> {
+    let one = body_framing_nonempty(max_len).prop_flat_map(move |f| {
         let len = framing_body_len(&f);
-        (Just(f), consumption_strategy(len), finish_no_panic(), headers_strategy(3), any::<u32>())
+        let fin = if with_panic { prop_oneof![6 => finish_no_panic(), 1 => Just(Finish::Panic)].boxed() } else { finish_no_panic() };
+        (Just(f), consumption_strategy(len), fin, headers_strategy(3), any::<u32>())
     });
     (proptest::collection::vec((one, proptest::bool::weighted(0.75)), 1..=3), transports, proptest::bool::weighted(0.2))
         .prop_map(|(items, transport, split)| {
@@ -735,7 +750,7 @@ pub fn c06_strategy(transports: BoxedStrategy<Transport>, with_panic: bool) -> B
     let finish = move || {
         prop_oneof![
             4 => respond_strategy(),
-            2 => (0usize..3000, proptest::collection::vec(0u16..1024, 0..4), any::<u8>()).prop_map(|(body_len, cuts, flush_mask)| Finish::Writer { body_len, cuts, flush_mask, zero_writes: flush_mask & 0x80 != 0 }),
+            2 => (0usize..3000, proptest::collection::vec(0u16..1024, 0..4), any::<u8>()).prop_map(|(body_len, cuts, flush_mask)| Finish::Writer { body_len, cuts, flush_mask, zero_writes: flush_mask & 0x80 != 0, how: (flush_mask >> 4) & 3 }),
             3 => Just(Finish::Drop),
             if with_panic { 2 } else { 0 } => Just(Finish::Panic),
         ]
